@@ -788,6 +788,12 @@ def extra_programs():
         "merge_broadcast": lambda: P(14, 4).merge(P(4, 1)[["b", "a"]].rename(columns={"a": "ra"}), on="b", how="inner", broadcast=True, shuffle_method="tasks"),
         "merge_broadcast_left2": lambda: P(14, 4).merge(P(6, 2)[["b", "a"]].rename(columns={"a": "ra"}), on="b", how="left", broadcast=True, shuffle_method="tasks"),
         "merge_hash": lambda: P(14, 4).merge(P(10, 3)[["b", "a"]].rename(columns={"a": "ra"}), on="b", how="outer", broadcast=False, shuffle_method="tasks"),
+        # two different partition selections of ONE shuffle in one graph: after the push-down two layer builders over the
+        # same input differ only in `_partitions` — their intermediate keys must not clash (seeded change C09-m4)
+        "two_selections_disk_shuffle": lambda: (lambda s: dx.concat([s.partitions[0], s.partitions[2]]))(P(20, 4).shuffle("b", shuffle_method="disk")),
+        "two_selections_tasks_shuffle": lambda: (lambda s: dx.concat([s.partitions[0], s.partitions[[2, 3]]]))(P(20, 4).shuffle("b", shuffle_method="tasks", max_branch=2)),
+        "two_selections_sort": lambda: (lambda s: dx.concat([s.partitions[0], s.partitions[2]]))(P(20, 4).sort_values("a", shuffle_method="tasks")),
+        "two_selections_merge": lambda: (lambda s: dx.concat([s.partitions[0], s.partitions[1]]))(P(14, 4).merge(P(10, 3)[["b", "a"]].rename(columns={"a": "ra"}), on="b", how="inner", broadcast=False, shuffle_method="tasks")),
         "from_delayed_roundtrip": delayed_roundtrip,
         "from_delayed_sum": lambda: dx.from_delayed([dask.delayed(_pdf)(3, shift=3 * i) for i in range(4)], meta=_pdf(3).iloc[:0]).a.sum(),
         "from_graph_persist": lambda: (P() + 1).persist() * 2,
